@@ -79,7 +79,7 @@ def extents_from_ctor(docs, exe):
         raise TranslateError("constructor initialising _data not found")
     for c in inits:
         nm = c["anyInit"].get("name")
-        if nm in ("_data", "_projection", "_moment"):
+        if nm in ("_data", "_projection", "_moment", "_rms"):
             idx = []
             for x in walk(c):
                 if x.get("kind") == "CXXOperatorCallExpr" and refname(strip1(kids(x)[0])) == "operator[]":
@@ -108,7 +108,7 @@ def extents_from_ctor(docs, exe):
             if len(calls) != 1 or len(kids(calls[0])) != 1:
                 raise TranslateError("_ws is no longer initialised by simpsonWeights()")
             ext["_ws_init"] = True
-    for m in ("_data", "_projection", "_moment", "_filling"):
+    for m in ("_data", "_projection", "_moment", "_filling", "_rms"):
         if m not in ext:
             raise TranslateError("extent of %s not found in the constructor" % m)
     if not ext.pop("_ws_init", False):
@@ -230,7 +230,12 @@ def translate():
             "   every written member is a total function of the cell coordinates c0 c1 c2.  `_rms` is not modelled. *)",
             "From Coq Require Import List ZArith Bool.",
             "From Inovesa Require Import Base.FieldKit Base.Sums Model.MomentsIR.",
-            "Section Gen.", "  Variable K : Fld.", "  Local Open Scope F_scope."]
+            "Import ListNotations.",
+            "(* extents of the member arrays (constructor mem-initialisers; boost::multi_array is row-major) *)"]
+    for m, nm in (("_data", "data"), ("_projection", "projection"), ("_moment", "moment"), ("_rms", "rms"), ("_filling", "filling")):
+        head.append("Definition gen_extents_%s (nb nx ny : Z) : list Z := [%s]%%Z." %
+                    (nm, "; ".join(Printer(None, None, lambda v: v).i(e) for e in ctx.extents[m])))
+    head += ["Section Gen.", "  Variable K : Fld.", "  Local Open Scope F_scope."]
     return "\n".join(head + out + ["End Gen."]) + "\n"
 
 
